@@ -22,10 +22,13 @@ type want struct {
 	c4, c5   bool // any status of the class
 	generic5 bool // 5xx, but none of the statuses reserved for a specific cause (501, 503, 504)
 	free     bool // outside the statement: only "no panic, neighbours healthy" is judged
+	sound200 bool // with free: the status is unconstrained, but a 200 must carry what a healthy backend's answer would have carried
 }
 
 func (w want) String() string {
 	switch {
+	case w.free && w.sound200:
+		return "any status, but a 200 only with the sound content"
 	case w.free:
 		return "unconstrained"
 	case w.exact != 0:
@@ -328,6 +331,35 @@ func proofByHashFaults() []*fault {
 				return m
 			}},
 	)
+	// several proofs in one reply (the backend holds the leaf hash more than once): whatever the front end does with
+	// the surplus, a proof it serves has nodes of the right size and is the proof of the leaf asked for
+	for _, delta := range []int64{-1, 0, 1} {
+		for _, n := range nodeSizes {
+			for _, where := range []string{"after", "before"} {
+				delta, n, where := delta, n, where
+				f := &fault{name: fmt.Sprintf("surplus-proof-%s-index%+d-node-%d-bytes", where, delta, n), class: "surplus-proof-with-bad-node", rpc: rpc, want: want{free: true, sound200: true},
+					appl: func(r *request) bool { return r.pathLen >= 1 && (delta >= 0 || r.a >= 1) },
+					mut: func(_ *inj, m proto.Message) proto.Message {
+						v := m.(*trillian.GetInclusionProofByHashResponse)
+						p0 := v.Proof[0]
+						hs := make([][]byte, len(p0.Hashes))
+						copy(hs, p0.Hashes)
+						hs[0] = resize(hs[0], n)
+						extra := &trillian.Proof{LeafIndex: p0.LeafIndex + delta, Hashes: hs}
+						if where == "after" {
+							v.Proof = []*trillian.Proof{p0, extra}
+						} else {
+							v.Proof = []*trillian.Proof{extra, p0}
+						}
+						return m
+					}}
+				if where == "before" {
+					f.want = w5 // the first proof itself is ill-formed: as for a single proof
+				}
+				out = append(out, f)
+			}
+		}
+	}
 	return append(out, nodeFaults(rpc, w5, func(m proto.Message) *trillian.Proof { return m.(*trillian.GetInclusionProofByHashResponse).Proof[0] })...)
 }
 
